@@ -83,7 +83,7 @@ fn find_stuck() -> Option<Stuck> {
     } else {
         format!("resident set {} MiB above the limit while one run made no scheduler step for {:.1} s (code under test allocates in a loop without yielding)", rss >> 20, idle.as_secs_f64())
     };
-    Some(Stuck { case: slot.case.clone(), findings, why })
+    Some(Stuck { case: (*slot.case).clone(), findings, why })
 }
 
 fn hang_finding(why: &str) -> Finding {
